@@ -258,4 +258,16 @@ def c13_c(ctx: Ctx):
     return out
 
 
-RULES = [c13_a, c13_b, c13_c]
+from .c15 import c15_f  # noqa: E402
+
+
+@rule("C13-d")
+def c13_d(ctx: Ctx):
+    """Only selected jobs are transferred (same obligation as C15-f)."""
+    res = c15_f(ctx)
+    for r in res:
+        r.rule = "C13-d"
+    return res
+
+
+RULES = [c13_a, c13_b, c13_c, c13_d]
